@@ -119,6 +119,19 @@ CLAIMED = {
               "angular data, data frames, Track.interpolate and interpolate_at_points across the antimeridian on the code."),
         design="6/C14", technique="Lean 4 proof (floor/modular arithmetic over ordered fields) + exact-rational correspondence",
         note=PROOF_NOTE + " Not shown: libm arctan2 of the complex64 average (1e-3 degree comparison with a float64 reference)."),
+    "C07": dict(
+        text=("Lean 4 theorems at ℝ about the exact dispersion relation and the solver's structure: tanh has derivative "
+              "1/cosh^2, is strictly increasing, 0 < tanh x <= x; omega = sqrt(g k tanh(k d)) is strictly increasing in k, "
+              "non-decreasing in d, below its deep-water value; hence the exact wavenumber is unique, increasing in w, "
+              "non-increasing in d, bounded below by both asymptotes (equality in infinite depth); an estimate with relative "
+              "residual <= eps lies between the exact roots of (1-eps)w and (1+eps)w; the code's group/phase ratio lies in "
+              "[1/2,1] and never exceeds the exact n = 1/2 + kd/sinh 2kd in (1/2,1]; d omega/dk = n omega/k (HasDerivAt); "
+              "when the iteration leaves through its convergence test every element passes it. Correspondence: the Float "
+              "model runs the same iteration (1e-9 agreement, shared iteration count of a vector); the 1e-3 residual, "
+              "positivity, monotonicity, asymptotes, dw/dk and the spectrum-level arrays are checked on the implementation "
+              "over a (w, d) log grid."),
+        design="6/C07", technique="Lean 4 proof at ℝ (calculus in Mathlib) + Float-model correspondence + residual scan",
+        note=PROOF_NOTE + " Sampled, not proved: that 10 Newton steps reach 1e-3 for every (w, d) of the box (max residual seen is recorded in the evidence)."),
 }
 
 NOT_YET = "check not built yet in this session; see DESIGN.md section 9 (build order)"
